@@ -8,8 +8,8 @@ META = {"units": "K", "scale": 2, "offset": 0.5, "history": ["made", "saved"], "
 class JsonRoundTrip(Contract):
     """BOUNDED STAND-IN ONLY (never counted as proved).  DimArray.from_json(a.to_json()) has a's dims, labels (numbers and
     strings), values (NaN included) and JSON-representable metadata; to_jsondict / from_jsondict likewise; serialising does
-    not change the array (its metadata included: entries JSON cannot represent are left out of the text, not removed from the
-    array, and the dictionary handed out is not the array's own).  The functions go through ndarray.tolist(), json.dumps and json.loads -- Python lists and text,
+    not change the array (its metadata included: entries JSON cannot represent -- at top level or nested in a list / dict -- are left out of the text, not removed
+    from the array, and the dictionary handed out is not the array's own).  The functions go through ndarray.tolist(), json.dumps and json.loads -- Python lists and text,
     outside the symbolic engine's reach -- and are evaluated on the real code over arrays of rank 0-3 with float / integer /
     string labels of length 0-3 in any order, float (every NaN pattern of the family) and integer data, and metadata of
     str / int / float / list / nested-dict kind.  [C19, JSON half]"""
@@ -49,6 +49,9 @@ class JsonRoundTrip(Contract):
         # metadata JSON cannot represent (a NumPy scalar, an array) is left out of the text -- and must stay on the array
         a.attrs["count"] = np.int64(7)
         a.attrs["weights"] = np.array([0.5, 0.25])
+        # ... also when it sits INSIDE a list or a dict: the array must still be writable as JSON
+        a.attrs["valid_range"] = [np.int64(1), np.int64(9)]
+        a.attrs["table"] = {"w": np.array([1.0])}
         env["a"], env["labs"] = a, labs
         env["before"] = (a.values.copy(), [ax.values.copy() for ax in a.axes], dict(a.attrs))
         if case["via"] == "json":
